@@ -17,9 +17,15 @@
 
 package netpoll
 
+import "syscall"
+
 // verifPoint marks a point between two steps of a hand-off protocol. Without the
 // `verif` build tag it is empty and inlined away.
 func verifPoint(id int, obj interface{}, arg int) {}
+
+// verifFault lets a monitor make the next system call at this site fail with an errno
+// of its choice (fault injection at the syscall boundary). Without the tag: never.
+func verifFault(site, fd int) syscall.Errno { return 0 }
 
 // verifFD marks the adoption (kind > 0) or the imminent close (kind < 0) of a descriptor.
 func verifFD(kind int, owner interface{}, fd int) {}
